@@ -67,6 +67,7 @@ var registry = map[string]propDef{
 	"C06m": {"other", props.C06mitccrh},
 	"C06k": {"other", props.C06kdf},
 	"C06p": {"other", props.C06pack},
+	"C06e": {"other", props.C06seed},
 	"C06w": {"other", props.OTwindows},
 	"C15w": {"other", props.OTwindows},
 	"C02w": {"other", props.OTwindows},
